@@ -28,8 +28,32 @@ ROOT = None  # scratch directory of the execution being keyed (relativised in di
 _VERIF = os.path.dirname(os.path.dirname(os.path.abspath(__file__)))
 
 
+import sysconfig as _sysconfig
+
+_EXCLUDED = tuple(
+    sorted(
+        set(
+            os.path.realpath(p)
+            for p in (
+                _sysconfig.get_paths()["stdlib"],
+                _sysconfig.get_paths()["purelib"],
+                _sysconfig.get_paths()["platlib"],
+                os.path.dirname(os.__file__),
+            )
+        )
+    )
+)
+_MACHINERY = (os.path.join(_VERIF, "vt", "vmp.py"), os.path.join(_VERIF, "vt", "explore.py"))
+
+
 def _interesting(filename, repo):
-    return filename.startswith(repo) or filename.startswith(os.path.join(_VERIF, "checks")) or filename.startswith(os.path.join(_VERIF, "vt", "drivers"))
+    """Frames whose locals are part of a virtual process's state: everything except the
+    standard library, installed third-party packages and the scheduler itself."""
+    if filename.startswith("<"):
+        return False
+    if filename in _MACHINERY:
+        return False
+    return not filename.startswith(_EXCLUDED)
 
 
 def digest(o, memo, depth=0):
